@@ -220,6 +220,100 @@ pub fn child_busy_recv(args: &[String]) -> i32 {
     }
 }
 
+/// Real library sockets on both sides over TCP, senders on their own tasks of a
+/// multi-thread runtime; the same exactly-once / in-order oracle without schedule control.
+async fn rig_pair(pair: &str, senders: usize, per: u32) -> Result<(u64, u64), String> {
+    use crate::rig::WAIT;
+    use crate::sock::Sock;
+    let (recv_ty, send_ty) = match pair {
+        "push-pull" => ("PULL", "PUSH"),
+        "pub-sub" => ("SUB", "PUB"),
+        "dealer-router" => ("ROUTER", "DEALER"),
+        _ => ("REP", "REQ"),
+    };
+    let mut rx = Sock::new(recv_ty, None);
+    let ep = rx.bind("tcp://127.0.0.1:0").await?;
+    if recv_ty == "SUB" {
+        rx.subscribe("").await?;
+    }
+    let mut tasks = Vec::new();
+    for k in 0..senders {
+        let ep = ep.clone();
+        let send_ty = send_ty.to_string();
+        tasks.push(tokio::spawn(async move {
+            let mut tx = Sock::new(&send_ty, None);
+            tx.connect(&ep).await?;
+            if send_ty == "PUB" {
+                // the subscription has to arrive first (slow joiner)
+                tokio::time::sleep(std::time::Duration::from_millis(150)).await;
+            }
+            for i in 0..per {
+                let m = crate::refcodec::tagged(k as u16, i, &[(i as usize * 37) % 700, 0]);
+                tx.send(&m).await.map_err(|e| e.text)?;
+                if send_ty == "REQ" {
+                    let r = tokio::time::timeout(WAIT, tx.recv()).await.map_err(|_| format!("sender {k}: reply {i} timed out"))??;
+                    let t = crate::refcodec::parse_tag(&r, 0)?;
+                    if t.origin != 1000 + k as u16 || t.seq != i {
+                        return Err(format!("sender {k}: reply to {i} is ({},{})", t.origin, t.seq));
+                    }
+                }
+                if i % 64 == 0 {
+                    tokio::task::yield_now().await;
+                }
+            }
+            // keep the connection up until the receiver is done
+            tokio::time::sleep(std::time::Duration::from_millis(400)).await;
+            Ok::<(), String>(())
+        }));
+    }
+    let mut next = vec![0u32; senders];
+    let mut got = 0u64;
+    let total = senders as u64 * per as u64;
+    let mut gaps = 0u64;
+    loop {
+        if got == total {
+            break;
+        }
+        let m = match tokio::time::timeout(std::time::Duration::from_millis(if recv_ty == "SUB" { 600 } else { 6000 }), rx.recv()).await {
+            Ok(r) => r?,
+            Err(_) => {
+                if recv_ty == "SUB" {
+                    break; // a publisher may drop for a slow subscriber; order is what is judged
+                }
+                return Err(format!("{pair}: receiver starved after {got} of {total} messages (next expected per sender: {next:?})"));
+            }
+        };
+        let skip = if recv_ty == "ROUTER" { 1 } else { 0 };
+        let t = crate::refcodec::parse_tag(&m, skip)?;
+        let k = t.origin as usize;
+        if k >= senders {
+            return Err(format!("{pair}: message of unknown origin {k}"));
+        }
+        if t.seq < next[k] {
+            return Err(format!("{pair}: sender {k}: message {} delivered again or out of order (next expected {})", t.seq, next[k]));
+        }
+        if t.seq > next[k] {
+            if recv_ty != "SUB" {
+                return Err(format!("{pair}: sender {k}: message {} delivered, {} skipped", t.seq, next[k]));
+            }
+            gaps += (t.seq - next[k]) as u64;
+        }
+        next[k] = t.seq + 1;
+        got += 1;
+        if recv_ty == "REP" {
+            rx.send(&crate::refcodec::tagged(1000 + t.origin, t.seq, &[3])).await.map_err(|e| e.text)?;
+        }
+    }
+    for t in tasks {
+        match tokio::time::timeout(WAIT, t).await {
+            Ok(Ok(Ok(()))) => {}
+            Ok(Ok(Err(e))) => return Err(e),
+            _ => return Err(format!("{pair}: a sender task did not finish")),
+        }
+    }
+    Ok((got, gaps))
+}
+
 fn busy_recv_case(me: &str, case: &Value, ctx: &mut Ctx) {
     use std::process::{Command, Stdio};
     let ty = s(case, "ty").to_string();
@@ -293,6 +387,28 @@ fn busy_recv_case(me: &str, case: &Value, ctx: &mut Ctx) {
 fn run_case(me: &str, case: &Value, ctx: &mut Ctx) {
     match s(case, "kind") {
         "busy_recv" => busy_recv_case(me, case, ctx),
+        "rig_pair" => {
+            let pair = s(case, "pair").to_string();
+            ctx.eval(crate::prng::hash_str(&case.to_string()), true);
+            ctx.sample("rig_pair", || case.clone());
+            let (res, _) = crate::rig::run(4, rig_pair(&pair, u(case, "senders") as usize, u(case, "per") as u32));
+            match res {
+                Ok((got, gaps)) => {
+                    ctx.add("rig_messages_delivered", got);
+                    ctx.add("rig_pubsub_messages_dropped_by_hwm", gaps);
+                    ctx.count(&format!("rig_pairs/{pair}"));
+                }
+                Err(e) => {
+                    if me == "C05" {
+                        ctx.violation_with(&format!("C05/rig/{pair}"), e, case.clone());
+                    } else if e.contains("starved") || e.contains("timed out") {
+                        ctx.violation_with(&format!("C06/rig/receiver-starved/{pair}"), e, case.clone());
+                    } else {
+                        ctx.count("findings_of_sibling_property");
+                    }
+                }
+            }
+        }
         "fq_sweep" => {
             ctx.sample("fq_sweep", || case.clone());
             sweep(
@@ -416,6 +532,11 @@ fn common_cases(tier: Tier, seed: u64, me: &str) -> Vec<Value> {
     for ty in ["PULL", "ROUTER", "REP", "DEALER", "SUB"] {
         v.push(json!({"kind": "busy_recv", "ty": ty, "n": tier.pick(400, 2000)}));
     }
+    for pair in ["push-pull", "pub-sub", "dealer-router", "req-rep"] {
+        for senders in [1usize, 4, 8] {
+            v.push(json!({"kind": "rig_pair", "pair": pair, "senders": senders, "per": tier.pick(300, 3000)}));
+        }
+    }
     // socket level
     for ty in FQ_TYPES {
         for n in 1..=6usize {
@@ -469,6 +590,7 @@ impl Prop for C05 {
             ("sock_messages_ending_in_empty_frame", 100),
             ("sock_reconnects_under_the_same_identity", 20),
             ("sock_cooperative_yields", 100),
+            ("rig_messages_delivered", 5000),
         ]
     }
     fn case_timeout(&self) -> std::time::Duration {
